@@ -135,6 +135,34 @@ def run_enum(exe, lines):
     return [l for o in outs for l in o]
 
 
+def lmeta_disagreements(paths, bindir, inputs, exts):
+    """L-meta: Model/MetaMap.v over the model's two event streams against the maps of parse and
+    parse_metadata, on documents without a front matter (keys and values are plain strings)."""
+    runner = common.build_runner("metamap", pc.MODEL_DEPS + ["Model/MetaMap.v"],
+                                 commons=("common_n.ml", "common_zq.ml", "events_print.ml"))
+    cases, meta = [], []
+    for s in inputs:
+        h = hx(s)
+        for e in exts:
+            cases.append("%s %d" % (h, e))
+            meta.append((s, e))
+    impl = common.run_lines(os.path.join(bindir, "c14mon"), ["L " + c for c in cases], tag="lmeta-impl")
+    model = common.run_lines(runner, cases, env={"PCFG": pc.PCFG_DEBUG}, tag="lmeta-model")
+    bad, compared, skipped = [], 0, 0
+    for (s, e), a, b in zip(meta, impl, model):
+        da, db = pc.split3(a), pc.split3(b)
+        for k in ("F", "M"):
+            if da.get(k) in ("fm", "panic") or db.get(k) == "fm":
+                skipped += 1          # front matter needs the YAML oracle; a panic is C03's finding
+                continue
+            compared += 1
+            if da.get(k) != db.get(k):
+                bad.append((s, {"input": s, "input_hex": hx(s), "ext": e, "part": "map-" + k,
+                                "impl": da.get(k, "")[:800], "model": db.get(k, "")[:800]}))
+                break
+    return bad, compared, skipped
+
+
 def parse_summary(line):
     assert line.startswith("S "), line
     d = dict(kv.split("=", 1) for kv in line[2:].split(" "))
@@ -217,24 +245,28 @@ def run(rep, tier, seed):
     cor_in = list(dict.fromkeys(corpus + hand + fam + gen[:1500 if quick else 15000]
                                 + list(pc.enum_strings(ALPHA, 4 if quick else 5))))
     dis, ncor, npan = pc.lev_disagreements(paths, cor_in, cor_exts, keys=("E", "M"))
+    dis_m, nmap, nskip = lmeta_disagreements(paths, bindir_d, cor_in, [0, pc.EXT_ALL, X_MODES])
+    dis = dis + dis_m
 
     common.decide(rep, PID, "L-ev (E and M projections) + parse/parse_metadata", audit, hits, dis, tier,
-                  "correspondence Model/Parser.v events/meta_events <-> PullParser / into_meta_iter; the map "
-                  "construction of the analysis pass (Model/MetaMap.v) is compared with the implementation only "
-                  "through the monitor")
+                  "correspondence Model/Parser.v events/meta_events <-> PullParser / into_meta_iter, and "
+                  "Model/MetaMap.v over those streams <-> the maps of parse / parse_metadata on documents without "
+                  "front matter; with a front matter the map is the serde_yaml oracle's answer on both sides and "
+                  "only the monitor compares it")
     common.proof_coverage(rep, PID, audit, tier,
                           "lexer, block splitter, metadata-only scanner, metadata_entry, parse_block filter "
                           "(Model/Lexer.v, Model/Parser.v), the metadata part of RecipeCollector (Model/MetaMap.v); "
                           "serde_yaml is an oracle (a function from the front matter text to a map or failure)")
     rep.coverage.update({
-        "evaluations": tot["n"] + len(cases) + ncor,
+        "evaluations": tot["n"] + len(cases) + ncor + nmap,
         "distinct_nontrivial": len(distinct),
         "rule": "monitor: all %d strings of length <= %d over the 16-symbol alphabet %r under %d extension sets "
                 "(enumerated inside the harness, release build), plus %d listed inputs (hand-written config-key and "
                 "block-comment placements, front-matter family of %d line combinations, %d generated recipes with "
                 "injected `>>` lines, with/without front matter, LF/CRLF) under the same extension sets, bundled "
                 "converter added for the full set (debug build); correspondence: E and M event streams of the model "
-                "on %d inputs x %d extension sets; distinct_nontrivial = listed inputs whose metadata-only map is "
+                "on %d inputs x %d extension sets, and the metadata maps Model/MetaMap.v computes from them on the same "
+                "inputs x 3 extension sets (documents without front matter); distinct_nontrivial = listed inputs whose metadata-only map is "
                 "non-empty while both parses have output"
                 % (n_strings, maxlen, "".join(ALPHA), len(exts), len(listed), len(fam), len(gen), len(cor_in),
                    len(cor_exts)),
@@ -247,7 +279,8 @@ def run(rep, tier, seed):
         "listed_only_meta_output": st["only_meta"], "listed_no_output": st["neither"],
         "listed_panics": st["panics"],
         "monitor_violations": len(hits),
-        "correspondence_cases": ncor, "correspondence_disagreements": len(dis), "both_sides_panic_cases": npan,
+        "correspondence_cases": ncor + nmap, "correspondence_disagreements": len(dis), "both_sides_panic_cases": npan,
+        "lev_cases": ncor, "lmeta_maps_compared": nmap, "lmeta_maps_skipped_front_matter_or_panic": nskip,
         "exhaustive": False,
     })
     rep.assumptions = [
@@ -260,6 +293,8 @@ def run(rep, tier, seed):
 
 def setup():
     pc.prepare()
+    common.build_runner("metamap", pc.MODEL_DEPS + ["Model/MetaMap.v"],
+                        commons=("common_n.ml", "common_zq.ml", "events_print.ml"))
     common.build_harness(["c14mon"], release=True)
     common.build_harness(["c14mon"], release=False)
 
@@ -270,6 +305,13 @@ def replay(rp):
         print("no input to replay: " + rp.get("what", ""))
         return 1
     bindir = common.build_harness(["c14mon", "events"])
+    if str(r.get("part", "")).startswith("map-"):
+        paths = pc.prepare()
+        dis, n, _ = lmeta_disagreements(paths, bindir, [common.unhx(r["input_hex"])], [int(r.get("ext", 0))])
+        for s, d in dis:
+            print("impl : " + d["impl"])
+            print("model: " + d["model"])
+        return 1 if dis else 0
     if r.get("part") in ("E", "M", "T"):
         # a model/implementation disagreement: show both sides
         paths = pc.prepare()
